@@ -838,8 +838,15 @@ def plain_newick_mutants(draw, max_edits=2):
     text = draw(newick_docs(max_taxa=5, max_trees=2, fancy=False, plain_labels=True))["text"]
     for _ in range(draw(st.integers(1, max_edits))):
         spots = [i for i, c in enumerate(text) if c in "(),;:"]
-        op = draw(st.sampled_from(["ins", "ins_at", "ins_at", "del", "rep"]))
+        op = draw(st.sampled_from(["ins", "ins_at", "ins_at", "del", "rep", "semi", "semi"]))
         c = draw(st.sampled_from("((()));;;,:"))
+        if op == "semi":
+            # a statement terminator inside the parentheses: "(a,(b,c);d);"
+            inner = [i for i in spots if text[i] in ",)"]
+            if inner:
+                p = inner[draw(st.integers(0, len(inner) - 1))]
+                text = text[:p] + ";" + text[p:]
+            continue
         if op == "ins" or not spots:
             p = draw(st.integers(0, len(text)))
             text = text[:p] + c + text[p:]
